@@ -39,12 +39,12 @@ func (v *VerifPipe) Receive(ctx context.Context, subscribe Completed, fn func(Pu
 	return v.p.Receive(ctx, subscribe, fn)
 }
 func (v *VerifPipe) SetPubSubHooks(h PubSubHooks) <-chan error { return v.p.SetPubSubHooks(h) }
-func (v *VerifPipe) CleanSubscriptions()                        { v.p.CleanSubscriptions() }
-func (v *VerifPipe) Close()                                     { v.p.Close() }
-func (v *VerifPipe) Error() error                               { return v.p.Error() }
-func (v *VerifPipe) Version() int                               { return v.p.Version() }
-func (v *VerifPipe) IsRESP2() bool                              { return v.p.r2p != nil || v.p.r2ps }
-func (v *VerifPipe) State() int32                               { return atomic.LoadInt32(&v.p.state) }
+func (v *VerifPipe) CleanSubscriptions()                       { v.p.CleanSubscriptions() }
+func (v *VerifPipe) Close()                                    { v.p.Close() }
+func (v *VerifPipe) Error() error                              { return v.p.Error() }
+func (v *VerifPipe) Version() int                              { return v.p.Version() }
+func (v *VerifPipe) IsRESP2() bool                             { return v.p.r2p != nil || v.p.r2ps }
+func (v *VerifPipe) State() int32                              { return atomic.LoadInt32(&v.p.state) }
 
 // VerifSentinelOpt is sentinel.go newSentinelOpt.
 func VerifSentinelOpt(opt *ClientOption) *ClientOption { return newSentinelOpt(opt) }
